@@ -67,6 +67,7 @@ type Ext struct {
 	Name  string // package name
 	Alias string `json:",omitempty"` // import alias used in the user files ("" = none)
 	Vars  []ExtVar `json:",omitempty"` // exported package-level variables (wire.Value operands)
+	Hidden bool    `json:",omitempty"` // no file of the user package imports it: its types are reached through the signatures of another external package only
 }
 
 type ExtVar struct {
@@ -297,6 +298,18 @@ func (c *Case) ExprParam(id TypeID, from string) string {
 
 // Describe is a short human-readable name of a type for messages.
 func (c *Case) Describe(id TypeID) string { return c.Expr(id, "") }
+
+// MentionsHidden reports whether the type expression mentions a hidden external package.
+func (c *Case) MentionsHidden(id TypeID) bool {
+	used := map[string]bool{}
+	c.UsesExt(id, used)
+	for k := range used {
+		if e := c.Ext(k); e != nil && e.Hidden {
+			return true
+		}
+	}
+	return false
+}
 
 // UsesExt reports which ext packages the type expression mentions.
 func (c *Case) UsesExt(id TypeID, out map[string]bool) {
